@@ -65,11 +65,18 @@ pub fn run(_args: &[String]) {
                 "sig": format!("cfg={:?} method={:?}", names, method), "input": case}));
         };
         // two registration orders
-        for order in 0..2 {
+        for order in 0..3 {
             let mut ns = names.clone();
             if order == 1 {
                 if ns.len() < 2 { continue; }
                 ns.reverse();
+            }
+            if order == 2 {
+                // a name registered twice (a default implementation and its override, a service assembled from modules): the routing
+                // table is the SET of registered names (Route.tla: Table) - one entry, one line in GetInfo
+                if ns.is_empty() || idx % 5 != 0 { continue; }
+                ns.push(ns[0].clone());
+                if ns.len() > 2 { ns.push(ns[1].clone()); }
             }
             let log: SharedLog = Default::default();
             let service = build(&ns, &log);
@@ -144,6 +151,7 @@ pub fn run(_args: &[String]) {
                     rest.sort();
                     let mut want = ns.clone();
                     want.sort();
+                    want.dedup();
                     p["vendor"] == svc::VENDOR && p["product"] == svc::PRODUCT && p["version"] == svc::VERSION && p["url"] == svc::URL
                         && l.first().map(|s| s.as_str()) == Some("org.varlink.service") && rest == want && replies[0].get("error").is_none()
                         && p.as_object().map(|o| o.len()) == Some(5)
